@@ -54,9 +54,16 @@ def effects_from_tables(world, sa, da, shift):
 ANY = (True, True, False)        # destination entity of the any_inputs model: every attribute is an input, a non-trigger one (hybrid defaults)
 
 
+def dfacts_of(dst_any, da):
+    """attribute facts of the destination: model M (DST), the any_inputs model A (2), or A with non-trigger = [i] (3: i is a
+    non-trigger input, every other attribute a trigger input)"""
+    if dst_any == 3: return (True, da == 'i', da != 'i')
+    return ANY if dst_any else DST[da]
+
+
 def model_request(ps, pd, sa, da, shift, weak, init, cache, dst_any=False):
     parents, ids = simlib.gtab_of([ps, pd])
-    dfacts = ANY if dst_any else DST[da]
+    dfacts = dfacts_of(dst_any, da)
     f = [SRC[sa][0], dfacts[0], dfacts[1], dfacts[2], SRC[sa][1]]
     return (f"connect_one {len(parents)} {' '.join(map(str, parents))} {ids[tuple(ps)]} {ids[tuple(pd)]} "
             + ' '.join('1' if x else '0' for x in f) + f" {shift} {int(weak)} {int(init)} {int(cache)}")
@@ -74,17 +81,12 @@ def canon(effects):
 
 def spec_reject(ps, pd, sa, da, shift, weak, init, dst_any=False):
     """the statement of C11, written independently of model and code (for the monitor)"""
-    if dst_any:
-        common_len = 0
-        for x, y in zip(ps, pd):
-            if x != y: break
-            common_len += 1
-        return (not SRC[sa][0]) or ((shift or weak) and not init) or (weak and common_len == 0)
+    D = dfacts_of(dst_any, da)
     common_len = 0
     for x, y in zip(ps, pd):
         if x != y: break
         common_len += 1
-    return (not SRC[sa][0]) or (not DST[da][0]) or ((shift or weak) and DST[da][1] and not init) or (weak and common_len == 0)
+    return (not SRC[sa][0]) or (not D[0]) or ((shift or weak) and D[1] and not init) or (weak and common_len == 0)
 
 
 def run(out, info, tier, seed):
@@ -111,9 +113,10 @@ def run(out, info, tier, seed):
         # hierarchical entities: the attribute facts that count are those of the entity's own model, not its parent's;
         # every eighth call: the destination is an entity of a model with any_inputs (third component 2)
         if idx < len(corpus): return (False, False)
+        if idx % 16 == 15: return (False, 3)
         if idx % 8 == 7: return (False, 2)
         return ((idx // 2) % 2 == 1, (idx // 4) % 2 == 1)
-    reqs = [model_request(*c, dst_any=(child_of(i)[1] == 2)) for i, c in enumerate(cases)]
+    reqs = [model_request(*c, dst_any=(child_of(i)[1] if child_of(i)[1] in (2, 3) else False)) for i, c in enumerate(cases)]
     model = common.batch_model(reqs) if info.driver_ok else None
     if not info.driver_ok:
         out.add_obligation('correspondence: extracted model available', False, info.driver_msg[-300:])
@@ -126,7 +129,7 @@ def run(out, info, tier, seed):
         res, unchanged, eff = one_case_wrapped(ps, pd, sa, da, sh, w, ini, cache, prior, child)
         seen += 1
         hist[res.split(':')[0]] = hist.get(res.split(':')[0], 0) + 1
-        want_reject = spec_reject(ps, pd, sa, da, sh, w, ini, dst_any=(child[1] == 2))
+        want_reject = spec_reject(ps, pd, sa, da, sh, w, ini, dst_any=(child[1] if child[1] in (2, 3) else False))
         desc = dict(kind='connect', src_group=ps, dst_group=pd, src_attr=sa, dst_attr=da, time_shifted=sh, weak=w,
                     initial_data=ini, cache=cache, prior_connection=prior, child_entity=list(child))
         # monitor: the property itself on the implementation
@@ -204,14 +207,22 @@ def one_case_wrapped(ps, pd, sa, da, sh, w, ini, cache, prior, child=(False, Fal
     sc.World.start = start
     try:
         case = {'n': 2, 'types': ['hybrid', 'hybrid'], 'grp': [ps, pd], 'edges': [], 'until': 2,
-                'beh': [{'type': 'hybrid', 'parent_model': child[0] is True}, {'type': 'hybrid', 'parent_model': child[1] is True, 'any_inputs_model': child[1] == 2}]}
-        world = simlib.build_world(case, cache=cache)
+                'beh': [{'type': 'hybrid', 'parent_model': child[0] is True}, {'type': 'hybrid', 'parent_model': child[1] is True, 'any_inputs_model': (True if child[1] == 2 else 'nt' if child[1] == 3 else False)}]}
+        try:
+            world = simlib.build_world(case, cache=cache)
+        except Exception as e:
+            # (starting the two simulators of a valid scenario must not fail)
+            return 'crashed:start:' + type(e).__name__ + ':' + str(e)[:80], True, None
     finally:
         sc.World.start = orig
     try:
         src, dst = ents['S0'], ents['S1']
         if prior:
-            world.connect(src, dst, ('po', 'i'))
+            try:
+                world.connect(src, dst, ('po', 'i'))
+            except Exception as e:
+                # (a plain connection from a persistent output into a non-trigger input is valid for every placement and model)
+                return 'crashed:prior plain connection po->i refused:' + type(e).__name__, True, None
         before = snapshot(world)
         kw = {}
         if sh: kw['time_shifted'] = sh
@@ -308,7 +319,7 @@ def replay(path, out):
     res, unchanged, eff = one_case_wrapped(r['src_group'], r['dst_group'], r['src_attr'], r['dst_attr'], r['time_shifted'],
                                            r['weak'], r['initial_data'], r['cache'], r['prior_connection'], tuple(r.get('child_entity', (False, False))))
     want = spec_reject(r['src_group'], r['dst_group'], r['src_attr'], r['dst_attr'], r['time_shifted'], r['weak'], r['initial_data'],
-                       dst_any=(tuple(r.get('child_entity', (False, False)))[1] == 2))
+                       dst_any=(tuple(r.get('child_entity', (False, False)))[1] if tuple(r.get('child_entity', (False, False)))[1] in (2, 3) else False))
     print('observed:', res, 'tables unchanged:', unchanged, 'expected:', 'rejected' if want else 'accepted')
     bad = res.startswith('crashed') or (res == 'rejected') != bool(want) or (res == 'rejected' and not unchanged)
     if bad: print(f'VIOLATION property=C11 replay={path}')
